@@ -154,6 +154,43 @@ func ext۰reflect۰rtype۰String(fr *frame, args []value) value {
 	return args[0].(rtype).t.String()
 }
 
+func ext۰reflect۰rtype۰Name(fr *frame, args []value) value {
+	// Signature: func (t reflect.rtype) string
+	switch t := args[0].(rtype).t.(type) {
+	case *types.Named:
+		return t.Obj().Name()
+	case *types.Basic:
+		return t.Name()
+	}
+	return ""
+}
+
+func ext۰reflect۰rtype۰PkgPath(fr *frame, args []value) value {
+	// Signature: func (t reflect.rtype) string
+	if t, ok := args[0].(rtype).t.(*types.Named); ok && t.Obj().Pkg() != nil {
+		return t.Obj().Pkg().Path()
+	}
+	return ""
+}
+
+func ext۰reflect۰rtype۰Key(fr *frame, args []value) value {
+	// Signature: func (t reflect.rtype) reflect.Type
+	m, ok := args[0].(rtype).t.Underlying().(*types.Map)
+	if !ok {
+		panic(reflectPanic(fr, "Type.Key", args[0]))
+	}
+	return makeReflectType(rtype{m.Key()})
+}
+
+func ext۰reflect۰rtype۰Len(fr *frame, args []value) value {
+	// Signature: func (t reflect.rtype) int
+	a, ok := args[0].(rtype).t.Underlying().(*types.Array)
+	if !ok {
+		panic(reflectPanic(fr, "Type.Len", args[0]))
+	}
+	return int(a.Len())
+}
+
 func ext۰reflect۰New(fr *frame, args []value) value {
 	// Signature: func (t reflect.Type) reflect.Value
 	t := args[0].(iface).v.(rtype).t
@@ -579,6 +616,10 @@ func initReflect(i *interpreter) {
 		"Out":       newMethod(i.reflectPackage, rtypeType, "Out"),
 		"Size":      newMethod(i.reflectPackage, rtypeType, "Size"),
 		"String":    newMethod(i.reflectPackage, rtypeType, "String"),
+		"Name":      newMethod(i.reflectPackage, rtypeType, "Name"),
+		"PkgPath":   newMethod(i.reflectPackage, rtypeType, "PkgPath"),
+		"Key":       newMethod(i.reflectPackage, rtypeType, "Key"),
+		"Len":       newMethod(i.reflectPackage, rtypeType, "Len"),
 	}
 	i.errorMethods = methodSet{
 		"Error": newMethod(i.reflectPackage, errorType, "Error"),
